@@ -33,6 +33,7 @@ def _one(args):
 def run_targets(targets, repo_root, budget_ms=20000, workers=None):
     """targets: list of (contract_module, qualname)."""
     workers = workers or min(16, max(1, len(targets)))
+    os.environ['PYVC_INNER_WORKERS'] = str(max(4, min(12, 32 // max(1, len(targets)))))
     jobs = [(m, q, repo_root, budget_ms) for m, q in targets]
     out = {}
     if not jobs:
